@@ -3,10 +3,17 @@ package main
 import (
 	"fmt"
 	"io"
+	"mime"
+	"os"
+	"path/filepath"
 	"sort"
 	"strings"
+	"syscall"
+	"time"
 
 	"github.com/gofiber/fiber/v3"
+
+	"verifmc/core"
 )
 
 // ---------------------------------------------------------------------------
@@ -30,7 +37,7 @@ type tinyViews struct{}
 
 func (tinyViews) Load() error { return nil }
 
-func (tinyViews) Render(w io.Writer, name string, binding any, _ ...string) error {
+func (tinyViews) Render(w io.Writer, name string, binding any, layouts ...string) error {
 	m, _ := binding.(fiber.Map)
 	keys := make([]string, 0, len(m))
 	for k := range m {
@@ -38,10 +45,106 @@ func (tinyViews) Render(w io.Writer, name string, binding any, _ ...string) erro
 	}
 	sort.Strings(keys)
 	fmt.Fprintf(w, "<%s>", name)
+	if len(layouts) > 0 {
+		fmt.Fprintf(w, "layouts=%q;", layouts)
+	}
 	for _, k := range keys {
 		fmt.Fprintf(w, "%s=%v;", k, m[k])
 	}
 	return nil
+}
+
+// ---------------------------------------------------------------------------
+// response helpers that keep state in the APPLICATION (not in the pooled context)
+//
+// ctx.SendFile memoises one file handler (and the Cache-Control value that goes with it)
+// per distinct SendFile configuration in app.sendfiles. The family below is one base
+// configuration plus every configuration that differs from it in exactly ONE field; each
+// member is served by a route of its own, and every route is both a history letter and a
+// probe. The request of every member carries a Range and an Accept-Encoding header, so
+// that each field is visible in the response (206 / gzip / Content-Disposition /
+// Cache-Control / file found through the fs.FS): if the application-level cache confuses
+// two members, the probe's response depends on which member was served first.
+
+type sfVariant struct {
+	Name string
+	File func() string // file argument of SendFile
+	Cfg  func() fiber.SendFile
+	Note string
+}
+
+// CacheDuration < 0 (fasthttp SkipCache): no file cache and no cache-cleaner goroutine per
+// application instance — hundreds of thousands of applications are built in one process.
+func sfBase() fiber.SendFile { return fiber.SendFile{CacheDuration: -1} }
+
+// no file extension: fasthttp then detects the content type from the data instead of asking
+// package mime, whose table is loaded from the host's mime database (environment dependent,
+// and ~1 MB of live heap that every pool flush would have to scan)
+func docFile() string { return filepath.Join(filesDir, "docfile") }
+
+var sendFileFamily = []sfVariant{
+	{Name: "sf-plain", File: docFile, Cfg: sfBase, Note: "base configuration"},
+	{Name: "sf-maxage60", File: docFile, Cfg: func() fiber.SendFile { c := sfBase(); c.MaxAge = 60; return c }, Note: "base + MaxAge 60"},
+	{Name: "sf-maxage3600", File: docFile, Cfg: func() fiber.SendFile { c := sfBase(); c.MaxAge = 3600; return c }, Note: "base + MaxAge 3600"},
+	{Name: "sf-download", File: docFile, Cfg: func() fiber.SendFile { c := sfBase(); c.Download = true; return c }, Note: "base + Download"},
+	{Name: "sf-byterange", File: docFile, Cfg: func() fiber.SendFile { c := sfBase(); c.ByteRange = true; return c }, Note: "base + ByteRange"},
+	{Name: "sf-compress", File: docFile, Cfg: func() fiber.SendFile { c := sfBase(); c.Compress = true; return c }, Note: "base + Compress"},
+	{Name: "sf-fs", File: func() string { return "docfile" }, Cfg: func() fiber.SendFile { c := sfBase(); c.FS = os.DirFS(filesDir); return c }, Note: "base + FS (same file through an fs.FS)"},
+	{Name: "sf-missing", File: func() string { return "/nonexistent-verif-c05/missing.txt" }, Cfg: sfBase, Note: "base configuration, file does not exist (error path, shares the cached handler of sf-plain)"},
+}
+
+// filesDir is a private directory of this process (Compress writes docfile.fiber.gz next
+// to the file; worker processes must not race on it).
+var filesDir string
+
+// pinMimeTable makes package mime initialise itself from its built-in table only.
+// fasthttp's file handler asks mime.TypeByExtension for every file it opens; the first call
+// loads the host's shared mime database (thousands of small objects in sync.Maps that stay
+// live for good and that every pool flush — two full collections per trace — would have to
+// mark again: measured 2x the cost of a flush). With the descriptor limit at zero for the
+// duration of that first call the database files cannot be opened; the served file has no
+// extension anyway, so no response depends on the table.
+func pinMimeTable() {
+	var old syscall.Rlimit
+	if err := syscall.Getrlimit(syscall.RLIMIT_NOFILE, &old); err != nil {
+		return
+	}
+	zero := old
+	zero.Cur = 0
+	if err := syscall.Setrlimit(syscall.RLIMIT_NOFILE, &zero); err != nil {
+		return
+	}
+	_ = mime.TypeByExtension(".txt")
+	if err := syscall.Setrlimit(syscall.RLIMIT_NOFILE, &old); err != nil {
+		core.Fatal("cannot restore the descriptor limit: %v", err)
+	}
+}
+
+func setupFiles() {
+	if filesDir != "" {
+		return
+	}
+	pinMimeTable()
+	d, err := os.MkdirTemp("", "verif_c05_")
+	if err != nil {
+		core.Fatal("cannot create the file directory: %v", err)
+	}
+	filesDir = d
+	content := strings.Repeat("fiber verification sample line 0123456789\n", 16)
+	if err := os.WriteFile(docFile(), []byte(content), 0o644); err != nil {
+		core.Fatal("cannot write %s: %v", docFile(), err)
+	}
+	// Last-Modified is part of the response: fixed modification time
+	mt := time.Unix(1700000000, 0)
+	if err := os.Chtimes(docFile(), mt, mt); err != nil {
+		core.Fatal("chtimes: %v", err)
+	}
+}
+
+func cleanupFiles() {
+	if filesDir != "" {
+		_ = os.RemoveAll(filesDir)
+	}
 }
 
 // ---------------------------------------------------------------------------
@@ -325,6 +428,19 @@ func buildApp(cfg int, st *runState) *fiber.App {
 		c.Path("/h2/ov1/ov2")
 		return c.RestartRouting()
 	})
+	app.Get("/vl", func(c fiber.Ctx) error {
+		st.mark(c)
+		return c.Render("page", fiber.Map{"title": "L"}, "layouts/main")
+	})
+
+	// --- routes that are history letters AND probes: helpers with application-level state ---
+	for _, v := range sendFileFamily {
+		name, file, cfg := v.Name, v.File(), v.Cfg()
+		app.Get("/sf/"+name, func(c fiber.Ctx) error {
+			st.observe(c, "handler:"+name, nil)
+			return c.SendFile(file, cfg)
+		})
+	}
 
 	app.Handler() // startup processing (route tree) before Server() is used directly
 	return app
